@@ -357,3 +357,61 @@ def _(v):
     half = Reaction({"H2O2": 1}, {"H2O": 1, "O2": 0.5}, checks=())
     v.prove("coefficient_below_one_is_printed", str(half) == "H2O2 -> H2O + 0.5 O2" and half.unicode({}) == "H2O2 → H2O + 0.5 O2" and "0.5 O" in half.latex({}) and "0.5 O" in half.html({}),
             detail=repr((str(half), half.unicode({}), half.latex({}), half.html({}))))
+
+
+@harness("C12", "keys_containing_the_arrow", functions=["chempy.util.parsing:to_reaction", "chempy.chemistry:Reaction.from_string", "chempy.chemistry:Equilibrium.from_string"], kind="data")
+def _(v):
+    """'for every species key without spaces': a key may contain the characters of the arrow itself ('CH2=CH2' in an equilibrium line, 'a->b' in
+    a reaction line); the arrow of the line is the one delimited by blanks, and every written species lands on its written side. A line with
+    more than one arrow is not the documented notation and is refused, never cut off after the second side"""
+    from chempy.chemistry import Reaction, Equilibrium
+    bad = []
+    for cls, text, reac, prod in ((Equilibrium, "CH2=CH2 + H2 = C2H6; 3", {"CH2=CH2": 1, "H2": 1}, {"C2H6": 1}), (Equilibrium, "2 CH2=CH2 = C4H8", {"CH2=CH2": 2}, {"C4H8": 1}),
+                                  (Equilibrium, "C2H6 = H2 + CH2=CH2", {"C2H6": 1}, {"H2": 1, "CH2=CH2": 1}), (Reaction, "a->b + 2 c -> d", {"a->b": 1, "c": 2}, {"d": 1}),
+                                  (Reaction, "A- -> B-", {"A-": 1}, {"B-": 1}), (Reaction, "A->B", {"A": 1}, {"B": 1}), (Equilibrium, "A=B", {"A": 1}, {"B": 1})):
+        try:
+            r = cls.from_string(text)
+            if dict(r.reac) != reac or dict(r.prod) != prod:
+                bad.append((text, dict(r.reac), dict(r.prod)))
+        except Exception as ex:
+            bad.append((text, repr(ex)[:80]))
+    v.prove("every_written_species_on_its_written_side", not bad, detail=repr(bad[:3]))
+    accepted = []
+    for cls, text in ((Reaction, "A -> B -> C"), (Equilibrium, "A = B = C"), (Reaction, "A -> B + C -> D; 3")):
+        try:
+            r = cls.from_string(text)
+            accepted.append((text, dict(r.reac), dict(r.prod)))
+        except ValueError:
+            pass
+        except Exception as ex:
+            accepted.append((text, repr(ex)[:80]))
+    v.prove("more_than_one_arrow_refused", not accepted, detail=repr(accepted[:3]))
+
+
+@harness("C12", "keys_beginning_with_a_star_and_system_text_switches", functions=["chempy.util.parsing:_parse_multiplicity", "chempy.reactionsystem:ReactionSystem.string"], kind="data")
+def _(v):
+    """(a) 'for every species key without spaces': keys that begin with the multiplication sign of the 'n * X' notation (surface sites '*',
+    '*CO') keep their star with an explicit coefficient in front, and survive print -> parse; (b) the two switches of ReactionSystem.string
+    act independently: with_name=False drops the names and keeps the parameters (the only form of a named system that parses back),
+    with_param=False drops the parameters and keeps the names"""
+    from chempy.chemistry import Reaction, Substance
+    from chempy.reactionsystem import ReactionSystem
+    try:
+        r = Reaction.from_string("2 *CO + * -> 2 * *COH + 3 *; 3")
+        ok = dict(r.reac) == {"*CO": 2, "*": 1} and dict(r.prod) == {"*COH": 2, "*": 3}
+        back = Reaction.from_string(str(r))
+        ok2, det = back == r, "%r %r %r" % (dict(r.reac), dict(r.prod), str(r))
+    except Exception as ex:
+        ok, ok2, det = False, False, repr(ex)[:200]
+    v.prove("star_keys_with_explicit_coefficients", ok, detail=det)
+    v.prove("star_keys_print_parse", ok2, detail=det)
+    rs = ReactionSystem.from_string("A -> B; 3; name='first'\nB -> C; 4; name='second'", substance_factory=Substance)
+    texts = {k: rs.string(**kw) for k, kw in (("default", {}), ("no_name", dict(with_name=False)), ("no_param", dict(with_param=False)), ("neither", dict(with_param=False, with_name=False)))}
+    want = {"default": "A -> B; 3; first\nB -> C; 4; second\n", "no_name": "A -> B; 3\nB -> C; 4\n", "no_param": "A -> B; first\nB -> C; second\n", "neither": "A -> B\nB -> C\n"}
+    v.prove("system_text_switches_are_independent", texts == want, detail=repr({k: t for k, t in texts.items() if t != want[k]}))
+    try:
+        back = ReactionSystem.from_string(texts["no_name"], substance_factory=Substance)
+        ok3 = [(dict(r.reac), dict(r.prod), r.param) for r in back.rxns] == [({"A": 1}, {"B": 1}, 3), ({"B": 1}, {"C": 1}, 4)]
+    except Exception as ex:
+        ok3 = False
+    v.prove("text_without_names_parses_back", ok3)
